@@ -39,7 +39,8 @@ thread_local! { static KNOWN: std::cell::RefCell<Vec<Value>> = std::cell::RefCel
 fn done(tried: u64) -> Value { json!({"found": false, "tried": tried, "known_failures": KNOWN.with(|k| k.borrow().clone())}) }
 fn found(tried: u64, e: Engine, sqls: &[String], reopen: &[usize], idx: usize, expected: String, got: String) -> Option<Value> {
     let stmt = sqls.get(idx).cloned().unwrap_or_default();
-    if let Some(frag) = skip_list().into_iter().find(|f| stmt.contains(f.as_str())) {
+    // a fragment is a regular expression over the statement text
+    if let Some(frag) = skip_list().into_iter().find(|f| regex::Regex::new(f).map(|r| r.is_match(&stmt)).unwrap_or(false)) {
         KNOWN.with(|k| { let mut k = k.borrow_mut(); if k.len() < 5 { k.push(json!({"fragment": frag, "statement": stmt, "engine": e.name(), "observed": format!("expected {expected}; got {got}")})); } });
         return None;
     }
@@ -106,6 +107,12 @@ pub fn order(depth: usize) -> Value {
                         plan.push((ki, Some((*l, *o))));
                     }
                 }
+                // a filter over a limited, ordered subquery filters the rows the limit kept
+                let first_sub = sqls.len();
+                let subs: Vec<(usize, usize, usize, i64)> = vec![(0, 2, 0, 1), (0, 3, 1, 2), (1, 3, 0, 4), (2, 4, 1, 3)];
+                for (ki, l, o, c) in &subs {
+                    sqls.push(format!("select a, b from (select a, b from {t} order by {} limit {l} offset {o}) s where a > {c}", keysets[*ki].0));
+                }
                 let first_unordered = sqls.len();
                 for (l, o) in &lims {
                     let mut q = format!("select a, b from {t}");
@@ -149,6 +156,17 @@ pub fn order(depth: usize) -> Value {
                                 if let Some(v) = found(tried, e, &sqls, &[], idx, format!("rows {o}..{hi} of the same query without LIMIT/OFFSET: {want:?}"), format!("{got:?}")) { return v; }
                             }
                         }
+                    }
+                }
+                for (j, (ki, l, o, c)) in subs.iter().enumerate() {
+                    let idx = first_sub + j;
+                    let full = outs[first_q + ki * (lims.len() + 1)].clone().unwrap();
+                    let lo = (*o).min(full.len());
+                    let hi = (lo + l).min(full.len());
+                    let want: Vec<Vec<String>> = full[lo..hi].iter().filter(|r| r[0].parse::<i64>().map(|a| a > *c).unwrap_or(false)).cloned().collect();
+                    let got = outs[idx].clone().unwrap();
+                    if sorted(got.clone()) != sorted(want.clone()) {
+                        if let Some(v) = found(tried, e, &sqls, &[], idx, format!("the rows with a > {c} among rows {lo}..{hi} of the ordered subquery: {want:?}"), format!("{got:?}")) { return v; }
                     }
                 }
                 for (j, (l, o)) in lims.iter().enumerate() {
@@ -367,6 +385,15 @@ pub fn join(depth: usize) -> Value {
                     sqls.push(format!("select a, b, c, d from l {kind} join r on a < c"));
                     wants.push(join_oracle(&l, &r, kind, &lt));
                 }
+                // ON conditions with a conjunct over one input only (must not become a filter below an outer join)
+                let eq_b = |x: &Row, y: &Row| match eq(x, y) { Some(true) => Some(x[1].unwrap() > 10), o => o };
+                let eq_d = |x: &Row, y: &Row| match eq(x, y) { Some(true) => Some(y[1].unwrap() > 20), o => o };
+                for kind in ["inner", "left", "right", "full"] {
+                    sqls.push(format!("select a, b, c, d from l {kind} join r on a = c and b > 10"));
+                    wants.push(join_oracle(&l, &r, kind, &eq_b));
+                    sqls.push(format!("select a, b, c, d from l {kind} join r on a = c and d > 20"));
+                    wants.push(join_oracle(&l, &r, kind, &eq_d));
+                }
                 // IN / EXISTS / NOT EXISTS / NOT IN (three-valued)
                 let semi = |f: &dyn Fn(&Row) -> Option<bool>| sorted(strs(&l.iter().filter(|x| f(x) == Some(true)).cloned().collect::<Vec<_>>()));
                 let in_r = |x: &Row| -> Option<bool> {
@@ -507,6 +534,103 @@ pub fn history(depth: usize) -> Value {
                 let mut ks: Vec<i64> = model.iter().map(|(k, _)| *k).collect(); ks.sort();
                 let want: Vec<Vec<String>> = ks.iter().map(|k| vec![k.to_string()]).collect();
                 if last != want { if let Some(v) = found(tried, e, &sqls, &reopen, sqls.len() - 1, format!("{want:?}"), format!("{last:?}")) { return v; } }
+            }
+        }
+    }
+    done(tried)
+}
+
+// ------------------------------------------------------------------------------------------------ C02: three-valued logic in WHERE / SELECT
+type B3 = Option<bool>;
+fn and3(x: B3, y: B3) -> B3 { match (x, y) { (Some(false), _) | (_, Some(false)) => Some(false), (Some(true), Some(true)) => Some(true), _ => None } }
+fn or3(x: B3, y: B3) -> B3 { match (x, y) { (Some(true), _) | (_, Some(true)) => Some(true), (Some(false), Some(false)) => Some(false), _ => None } }
+fn not3(x: B3) -> B3 { x.map(|b| !b) }
+
+pub fn expr(depth: usize) -> Value {
+    let mut tried = 0u64;
+    let dom = [None, Some(0i64), Some(1), Some(2)];
+    let rows: Vec<Row> = dom.iter().flat_map(|a| dom.iter().map(move |b| vec![*a, *b])).collect();
+    let cmp = |op: &str, x: V, y: V| -> B3 { match (x, y) { (Some(p), Some(q)) => Some(match op { "=" => p == q, "<>" => p != q, "<" => p < q, "<=" => p <= q, ">" => p > q, _ => p >= q }), _ => None } };
+    let ar = |op: &str, x: V, y: V| -> V { match (x, y) { (Some(p), Some(q)) => Some(match op { "+" => p + q, "-" => p - q, _ => p * q }), _ => None } };
+    // boolean atoms: (sql text, evaluator over (a, b), (lhs, op, rhs) for comparison atoms)
+    struct Atom { sql: String, f: Box<dyn Fn(V, V) -> B3>, shape: Option<(String, &'static str, String)> }
+    let mut atoms: Vec<Atom> = vec![];
+    for op in ["=", "<>", "<", "<=", ">", ">="] {
+        let mut add = |l: &str, r: &str, f: Box<dyn Fn(V, V) -> B3>| atoms.push(Atom { sql: format!("{l} {op} {r}"), f, shape: Some((l.to_string(), op, r.to_string())) });
+        add("a", "b", Box::new(move |a, b| cmp(op, a, b)));
+        add("a", "a", Box::new(move |a, _| cmp(op, a, a)));
+        add("a", "1", Box::new(move |a, _| cmp(op, a, Some(1))));
+        add("1", "b", Box::new(move |_, b| cmp(op, Some(1), b)));
+        add("a + b", "2", Box::new(move |a, b| cmp(op, ar("+", a, b), Some(2))));
+        add("a - a", "0", Box::new(move |a, _| cmp(op, ar("-", a, a), Some(0))));
+        add("a * 0", "0", Box::new(move |a, _| cmp(op, ar("*", a, Some(0)), Some(0))));
+        add("a + 1", "b", Box::new(move |a, b| cmp(op, ar("+", a, Some(1)), b)));
+    }
+    let mut plain = |sql: &str, f: Box<dyn Fn(V, V) -> B3>| atoms.push(Atom { sql: sql.into(), f, shape: None });
+    plain("a is null", Box::new(|a, _| Some(a.is_none())));
+    plain("b is not null", Box::new(|_, b| Some(b.is_some())));
+    plain("a > 0 and a < 2", Box::new(move |a, _| and3(cmp(">", a, Some(0)), cmp("<", a, Some(2)))));
+    plain("a > 1 and a < 1 /* H29 */", Box::new(move |a, _| and3(cmp(">", a, Some(1)), cmp("<", a, Some(1)))));
+    plain("a in (0, 2)", Box::new(move |a, _| or3(cmp("=", a, Some(0)), cmp("=", a, Some(2)))));
+    plain("a not in (0, 2)", Box::new(move |a, _| not3(or3(cmp("=", a, Some(0)), cmp("=", a, Some(2))))));
+    let n = atoms.len();
+    // Two rewrite rules of the optimizer are sound for filters only (they turn a NULL into false or a false into NULL) and are
+    // pinned by unit tests of the repository (known findings H29, H30). Formulas that contain their left-hand side, directly
+    // or after De Morgan, are tagged with a SQL comment so that their failures are reported against those findings.
+    //   H29 and-gt-lt-conflict: (x > A) and (x < B) => false   [A >= B]        H30 eq-trans: (x = y) and (y = z) => (x = y) and (x = z)
+    let tag = |i: usize, j: usize, conj: bool| -> &'static str {
+        let (Some((l1, o1, r1)), Some((l2, o2, r2))) = (&atoms[i].shape, &atoms[j].shape) else { return "" };
+        // as a conjunction the atoms are used as they are; under `not (p or q)` they are negated
+        let neg = |o: &'static str| match o { "=" => "<>", "<>" => "=", "<" => ">=", "<=" => ">", ">" => "<=", _ => "<" };
+        let (o1, o2) = if conj { (*o1, *o2) } else { (neg(o1), neg(o2)) };
+        let same_terms = (l1 == l2 && r1 == r2) || (l1 == r2 && r1 == l2);
+        if same_terms && matches!((o1, o2), (">", "<") | ("<", ">") | (">", ">") | ("<", "<")) { return " /* H29 */"; }
+        let shares = l1 == l2 || l1 == r2 || r1 == l2 || r1 == r2;
+        if o1 == "=" && o2 == "=" && shares { return " /* H30 */"; }
+        ""
+    };
+    // formulas: atom, not atom, and/or of two atoms, negated and/or
+    let mut formulas: Vec<(String, Box<dyn Fn(V, V) -> B3 + '_>)> = vec![];
+    for i in 0..n {
+        let s = &atoms[i].sql;
+        let at = &atoms;
+        formulas.push((s.clone(), Box::new(move |a, b| (at[i].f)(a, b))));
+        formulas.push((format!("not ({s})"), Box::new(move |a, b| not3((at[i].f)(a, b)))));
+    }
+    let stride = if depth >= 2 { 1 } else { 7 };
+    let mut k = 0usize;
+    for i in 0..n { for j in 0..n {
+        k += 1;
+        if i == j || k % stride != 0 { continue; }
+        let at = &atoms;
+        let (si, sj) = (&atoms[i].sql, &atoms[j].sql);
+        let (tc, td) = (tag(i, j, true), tag(i, j, false));
+        formulas.push((format!("({si}) and ({sj}){tc}"), Box::new(move |a, b| and3((at[i].f)(a, b), (at[j].f)(a, b)))));
+        formulas.push((format!("({si}) or ({sj})"), Box::new(move |a, b| or3((at[i].f)(a, b), (at[j].f)(a, b)))));
+        formulas.push((format!("not (({si}) and ({sj})){tc}"), Box::new(move |a, b| not3(and3((at[i].f)(a, b), (at[j].f)(a, b))))));
+        formulas.push((format!("not (({si}) or ({sj})){td}"), Box::new(move |a, b| not3(or3((at[i].f)(a, b), (at[j].f)(a, b))))));
+    } }
+    for e in [Engine::Mem, Engine::Disk { block: 64, rowset: 1 }] {
+        let mut sqls = vec!["create table e(a int, b int)".to_string(), insert("e", &rows[..8]), insert("e", &rows[8..])];
+        let q0 = sqls.len();
+        for (f, _) in &formulas {
+            sqls.push(format!("select a, b from e where {f}"));
+            sqls.push(format!("select a, b, {f} from e"));
+        }
+        tried += (sqls.len() - q0) as u64;
+        let outs = match run(e, &sqls, &[]) { Ok(o) => o, Err(err) => return found_raw(tried, e, &sqls, &[], sqls.len() - 1, "the session to run".into(), err) };
+        for (fi, (_, f)) in formulas.iter().enumerate() {
+            let want_where = sorted(strs(&rows.iter().filter(|r| f(r[0], r[1]) == Some(true)).cloned().collect::<Vec<_>>()));
+            let want_sel: Vec<Vec<String>> = sorted(rows.iter().map(|r| vec![sv(r[0]), sv(r[1]), match f(r[0], r[1]) { None => "NULL".into(), Some(b) => b.to_string() }]).collect());
+            for (off, want) in [(0usize, &want_where), (1, &want_sel)] {
+                let idx = q0 + 2 * fi + off;
+                // keep the replay script short: schema + data + the failing statement
+                let script = || { let mut s = sqls[..q0].to_vec(); s.push(sqls[idx].clone()); s };
+                match &outs[idx] {
+                    Ok(got) if sorted(got.clone()) == *want => {}
+                    Ok(got) => { let s = script(); if let Some(v) = found(tried, e, &s, &[], s.len() - 1, format!("{want:?}"), format!("{:?}", sorted(got.clone()))) { return v; } }
+                    Err(err) => { let s = script(); if let Some(v) = found(tried, e, &s, &[], s.len() - 1, format!("{want:?}"), format!("error: {err}")) { return v; } }
+                }
             }
         }
     }
